@@ -122,6 +122,12 @@ func H_c17(p []int) {
 	hookCalls := 0
 	var hookErr error
 	var hookVerb rune
+	if len(p) > 6 && p[6] == 4 {
+		// the same error type printed once BEFORE the hook is installed: a
+		// dispatch decision remembered per type must not survive registration
+		_ = redact.Sprintf("%v %v", c17Err(ek, "x"), []error{c17Err(ek, "y")})
+		errCalls, nilErrCalls = 0, 0
+	}
 	if hook == 1 {
 		redact.RegisterRedactErrorFn(func(err error, w redact.SafePrinter, verb rune) {
 			hookCalls++
@@ -265,6 +271,13 @@ func H_c17(p []int) {
 		}
 	case pos == 8:
 		vAssert(hookCalls == 0, "C17/no-dispatch-on-unexported-field")
+	case hook == 0 && dispatched && (pos == 0 || pos == 2 || pos == 3 || pos == 5) && len(preOut) == 0:
+		// no hook: the error renders as under the standard library (Error()
+		// wins over String(), Format() over both)
+		f := catchFmt(func() string { return fmt.Sprintf("a "+d+" b", arg) })
+		if !f.panicked {
+			vAssert(bytesEq(strip(out), esc([]byte(f.out))), "C17/no-hook-as-fmt")
+		}
 	case !dispatched:
 		vAssert(hookCalls == 0, "C17/safeformatter-bypasses-hook")
 	}
